@@ -1,6 +1,6 @@
 SPECIFICATION Spec
 CONSTANTS
-  MaxInputs = 2
+  MaxInputs = 1
   MaxStages = 4
   Cap = 2
   Modes = {"link", "file", "stdout"}
